@@ -81,7 +81,12 @@ func GenCase(spec *PropSpec, base uint64, tier string, i int) (uint64, Config, P
 
 // ExecCase executes one case and returns the run.
 func ExecCase(spec *PropSpec, seed uint64, cfg Config, plan Plan) (r *Run) {
+	return execCase(spec, seed, cfg, plan, false)
+}
+
+func execCase(spec *PropSpec, seed uint64, cfg Config, plan Plan, noKnown bool) (r *Run) {
 	r = NewRun(spec.ID, seed, cfg, plan, spec.Monitors())
+	r.NoKnown = noKnown
 	r.NoPanicGuard = spec.PanicsAreViolations
 	defer func() {
 		if rec := recover(); rec != nil {
@@ -207,7 +212,7 @@ func Minimise(spec *PropSpec, seed uint64, cfg Config, plan Plan, class string, 
 	tries := 0
 	fails := func(p Plan) *Violation {
 		tries++
-		r := ExecCase(spec, seed, cfg, p)
+		r := execCase(spec, seed, cfg, p, true)
 		if r.Viol != nil && r.Viol.Class() == class {
 			return r.Viol
 		}
@@ -475,6 +480,8 @@ func Check(propID, tier string, runsOverride int, workers int) int {
 	}
 	// merge in run-index order
 	agg := NewStats()
+	knownRuns := map[string]int{}
+	suppressed := map[string]int{}
 	states := map[string]int{}
 	distinct := map[string]bool{}
 	aborted := map[string]int{}
@@ -499,6 +506,13 @@ func Check(propID, tier string, runsOverride int, workers int) int {
 		}
 		for k, v := range rr.Stats.OpOutcomes {
 			agg.OpOutcomes[k] += v
+		}
+		for k, v := range rr.Stats.KnownHits {
+			knownRuns[k]++
+			_ = v
+		}
+		for k := range rr.Stats.Suppressed {
+			suppressed[k]++
 		}
 		for _, s := range rr.States {
 			states[s]++
@@ -550,13 +564,21 @@ func Check(propID, tier string, runsOverride int, workers int) int {
 		minBudget = 4 * time.Minute
 	}
 	knownSeen := map[string]int{}
+	for _, f := range known.Findings {
+		if f.Property == propID && f.Status == "open" {
+			knownSeen[f.ID] = knownRuns[f.Class]
+			note := fmt.Sprintf("hit in %d of %d runs", knownRuns[f.Class], n)
+			if knownRuns[f.Class] == 0 {
+				note = "its trigger was not reached in this batch"
+			}
+			fmt.Printf("KNOWN-FINDING: property=%s %s — %s (%s)\n", propID, f.ID, f.Description, note)
+		}
+	}
 	reported := 0
 	for _, c := range classes {
 		first := byClass[c][0]
 		if kf := known.Match(first.Violation); kf != nil {
-			knownSeen[kf.ID] += len(byClass[c])
-			fmt.Printf("KNOWN-FINDING: property=%s %s — %s (hit in %d runs, e.g. seed %d)\n", propID, kf.ID, kf.Description, len(byClass[c]), first.Seed)
-			continue
+			continue // cannot happen (known classes never stop a run) but harmless
 		}
 		newViolations += len(byClass[c])
 		if reported >= 5 {
@@ -607,6 +629,7 @@ func Check(propID, tier string, runsOverride int, workers int) int {
 		"distinct_abstract_states": len(states),
 		"runs_inconclusive":        aborted,
 		"known_findings_hit":       knownSeen,
+		"suppressed_after_known_hit": suppressed,
 		"components": map[string]interface{}{
 			"real": append([]string{"app.ExocoreApp (baseapp, ante chains, all modules, EVM + precompiles, IAVL/rootmulti over MemDB)", "real signed transactions", "CometBFT types.ValidatorSet (H+2 update rule)"}, spec.Real...),
 			"stub": append([]string{"consensus engine (header time, proposer, votes, evidence, block store)", "mempool/gossip", "disk (MemDB)", "gateway contract (EOA holding the configured gateway address)"}, spec.Stub...),
@@ -666,7 +689,7 @@ func Replay(path string) int {
 		fmt.Fprintln(os.Stderr, "unknown property", rf.Property)
 		return 2
 	}
-	r := ExecCase(spec, rf.Seed, rf.Config, rf.Plan)
+	r := execCase(spec, rf.Seed, rf.Config, rf.Plan, true)
 	if r.Viol == nil {
 		fmt.Printf("replay clean (aborted=%q)\n", r.Stats.Aborted)
 		return 0
